@@ -25,6 +25,8 @@ structure NoNil (s : St) : Prop where
   lin : s.linear ≠ []
   lz : ∀ z ∈ s.lazies, z.value = none → z.stack ≠ []
 
+theorem NoNil.lzok {s : St} (h : NoNil s) : LzOK s := ⟨h.good.lazies, h.lz⟩
+
 /-- `m` does not end in a host panic from `s`, and if it returns normally the state is `NoNil` -/
 def Safe {α} (m : M α) (s : St) : Prop :=
   ∀ r s', m.run s = (r, s') → r ≠ .error .panic ∧ (∀ a, r = .ok a → NoNil s')
